@@ -388,10 +388,9 @@ func init() {
 		all := ex.tb.Const(0xffffffff, 32)
 		return ret(f, retTo, TupleV{all, all, all, all})
 	}
-	intrinsics["reflect.TypeOf"] = func(ex *Exec, st *State, f *Frame, fn FuncV, args []Value, retTo ssa.Value, instr ssa.Instruction) bool {
-		return ret(f, retTo, Opaque{Why: "reflect.TypeOf"})
+	intrinsics["internal/reflectlite.TypeOf"] = func(ex *Exec, st *State, f *Frame, fn FuncV, args []Value, retTo ssa.Value, instr ssa.Instruction) bool {
+		return ret(f, retTo, Opaque{Why: "reflectlite.TypeOf"})
 	}
-	intrinsics["internal/reflectlite.TypeOf"] = intrinsics["reflect.TypeOf"]
 
 	intrinsics["internal/abi.NoEscape"] = func(ex *Exec, st *State, f *Frame, fn FuncV, args []Value, retTo ssa.Value, instr ssa.Instruction) bool {
 		return ret(f, retTo, args[0])
@@ -690,11 +689,37 @@ func (ex *Exec) external(st *State, fn *ssa.Function, args []Value, instr ssa.In
 }
 
 func (ex *Exec) callNative(st *State, f *Frame, name string, fn FuncV, args []Value, retTo ssa.Value, instr ssa.Instruction) {
+	switch {
+	case strings.HasPrefix(name, "rtype."):
+		v := ex.rtypeMethod(st, fn.Recv.(RType), name[len("rtype."):], args)
+		if retTo != nil {
+			f.env[retTo] = v
+		}
+		f.pc++
+		return
+	case name == "runtimeError.Error":
+		if retTo != nil {
+			f.env[retTo] = fn.Recv
+		}
+		f.pc++
+		return
+	case name == "runtimeError.RuntimeError":
+		f.pc++
+		return
+	}
 	panic(cutPath{"native " + name})
 }
 
-func (ex *Exec) nativeContinue(st *State, caller *Frame, tag string, res Value) {
-	panic(cutPath{"native continuation " + tag})
+func (ex *Exec) nativeContinue(st *State, caller *Frame, callee *Frame, res Value) {
+	switch callee.nativeRet {
+	case "reflect.Call":
+		v := ex.reflectCallReturn(st, callee.fn, res)
+		if callee.retTo != nil {
+			caller.env[callee.retTo] = v
+		}
+		return
+	}
+	panic(cutPath{"native continuation " + callee.nativeRet})
 }
 
 func (ex *Exec) globalInitial(st *State, g *ssa.Global, et types.Type) Value {
